@@ -10,6 +10,7 @@ import (
 	"regexp"
 	"runtime"
 	"runtime/debug"
+	"runtime/pprof"
 	"sort"
 	"strconv"
 	"strings"
@@ -423,4 +424,21 @@ func ScratchDir(tag string) string {
 		panic(err)
 	}
 	return d
+}
+
+// Main is the entry point of a per-property check binary.
+func Main(prop, level string, run func(*Run)) {
+	// enumeration is allocation-heavy and short-lived: trade memory for fewer GC cycles
+	if os.Getenv("GOGC") == "" {
+		debug.SetGCPercent(300)
+	}
+	debug.SetMemoryLimit(12 << 30)
+	if pf := os.Getenv("VERIF_CPUPROFILE"); pf != "" {
+		f, _ := os.Create(pf)
+		pprof.StartCPUProfile(f)
+		AtExit = pprof.StopCPUProfile
+	}
+	r := Start(prop, level)
+	run(r)
+	r.Finish()
 }
